@@ -1,5 +1,5 @@
 CONSTANTS
-  RelIds = {1, 2, 3, 4, 5, 6}
+  RelIds = {1, 2, 3, 4, 5, 6, 7, 8, 9, 10, 11, 12, 13, 14, 15, 16, 17}
 INIT TInit
 NEXT TNext
 INVARIANTS ObsProtocol ObsExclusive ObsRelayNum ObsSigned ObsUsedBracket ObsBound ObsAccounting ObsBlockedRule
